@@ -2,7 +2,7 @@ SPECIFICATION Spec
 CONSTANTS
   MaxLeaves = 4
   MaxLeaves2 = 4
-  Mod = 3
+  Mod = 6
   Typings = {"O", "I", "M"}
   Tops = {"ret1", "ret2", "assign", "aug", "unpack"}
   Dump = TRUE
